@@ -209,6 +209,26 @@ func H_Hist() {
 	m := kit.NewModel(w)
 	m.Build()
 	m.CheckCounts("after Build")
+	// twin=1: a second provider is built from the same collection and stays alive
+	// while the first one is used; it has instances of its own
+	var p2 godi.Provider
+	var m2 *kit.Model
+	if vrt.Param("twin", 0) == 1 {
+		for r := 0; r < n; r++ {
+			vrt.Assume(w.Regs[r].Form != kit.IdInstance) // a registered value is shared by construction
+		}
+		var err2 error
+		p2, err2 = c.Build()
+		vrt.Assert(err2 == nil, "C06.verdict_differs", "a second Build of the same collection failed:", err2)
+		if err2 != nil {
+			return
+		}
+		vrt.Cover("twin_built")
+		m2 = m.Twin()
+		m2.Build()
+		m.Extra = m2.Count
+		m.CheckCounts("after the second Build")
+	}
 
 	nodes := []node{{p}}
 	parent := []int{-1, 0, 1, 0}
@@ -248,6 +268,19 @@ func H_Hist() {
 		}
 	}
 	m.CheckCounts("after history")
+	if p2 != nil {
+		// the twin hands out its own instances, never those of the first provider
+		for _, id := range ids {
+			step(m2, []node{{p2}}, 0, id, "twin")
+		}
+		for _, id := range ids {
+			step(m, nodes, 0, id, "after twin")
+		}
+		p2.Close()
+		for _, id := range ids {
+			step(m, nodes, 0, id, "after twin closed")
+		}
+	}
 	vrt.Assert(kit.Untouched, "C04.ignored_field_touched", "a field tagged inject:\"-\" or an unexported field was populated")
 	for k := nn - 1; k >= 1; k-- {
 		nodes[k].p.Close()
